@@ -57,7 +57,7 @@ func serveWhole(t *testing.T, root, wirePath string) (data []byte, size int64, w
 func TestC20(t *testing.T) {
 	r := NewReporter(t)
 	defer r.Done()
-	r.Rule("make-iso on every tree with <= N nodes in both modes and on size families: output file = library image = served image (variable fields masked), also to stdout; decrypt redump / 3k3y on images over region tables x keys: output = reference plaintext (region table cleared; 3k3y area zeroed), to a file and to '-', and served back unchanged from PS3ISO and elsewhere; existing targets {file, directory, symlink to file} x 3 commands keep hash/size/mtime and the tool exits non-zero; output '-' with standard output being an existing file (append / positioned at end) x 3 commands x {succeeding, failing} run keeps the existing bytes in front; distinct by case description")
+	r.Rule("make-iso on every tree with <= N nodes in both modes and on size families: output file = library image = served image (variable fields masked), also to stdout; decrypt redump / 3k3y on images over region tables x keys (and images that do not end on a sector boundary): output = reference plaintext (region table cleared; 3k3y area zeroed), to a file and to '-', and served back unchanged from PS3ISO and elsewhere; existing targets {file, directory, symlink to file} x 3 commands keep hash/size/mtime and the tool exits non-zero; output '-' with standard output being an existing file (append / positioned at end) x 3 commands x {succeeding, failing} run keeps the existing bytes in front; distinct by case description")
 	base := filepath.Join(scratchBase(), sprintf("verifh-c20-%d", os.Getpid()))
 	defer os.RemoveAll(base)
 	env := cleanEnv(base)
@@ -187,6 +187,7 @@ func TestC20(t *testing.T) {
 		kind  string
 		pairs []uint32
 		key   []byte
+		cut   int // > 0: the image file ends after this many bytes (inside a plain region: dumps need not be whole sectors)
 	}
 	var dcs []dcase
 	tables := [][]uint32{{0, 2, 5, 7, 10, 11}, {0, 1, 3, 11}, {0, 2, 4, 5}, {0, 3, 4, 6, 9, 11}, {0, 2, 10, 11}, {0, 5, 8, 13}, {0, 1, 4, 5, 7, 11}}
@@ -195,8 +196,12 @@ func TestC20(t *testing.T) {
 			if !r.Thorough() && (ti+ki)%2 == 1 {
 				continue
 			}
-			dcs = append(dcs, dcase{"redump", pr, k}, dcase{"3k3y", pr, k})
+			dcs = append(dcs, dcase{"redump", pr, k, 0}, dcase{"3k3y", pr, k, 0})
 		}
+	}
+	// images that do not end on a sector boundary (the last plain region of the first table is sectors 10-11)
+	for _, cut := range []int{10*2048 + 700, 10*2048 + 1, 11*2048 + 2047, 10 * 2048} {
+		dcs = append(dcs, dcase{"redump", tables[0], c10Keys[1], cut}, dcase{"3k3y", tables[0], c10Keys[1], cut})
 	}
 	for _, dc := range dcs {
 		for _, toStdout := range []bool{false, true} {
@@ -222,6 +227,9 @@ func TestC20(t *testing.T) {
 				copy(plain[0xF80:], dc.key)
 			}
 			disk := buildEncImage(plain, dc.pairs, dc.key)
+			if dc.cut > 0 {
+				disk = disk[:dc.cut]
+			}
 			img := filepath.Join(base, "in", "enc.iso")
 			writeFileAbs(img, disk, baseTime)
 			want := refDecryptImage(disk, dc.pairs, dc.key, true)
@@ -229,6 +237,9 @@ func TestC20(t *testing.T) {
 				want = zeroMask(want)
 			}
 			key := sprintf("decrypt %s pairs=%v key=%x stdout=%v", dc.kind, dc.pairs, dc.key[:2], toStdout)
+			if dc.cut > 0 {
+				key += sprintf(" image-bytes=%d", dc.cut)
+			}
 			r.State(key)
 			r.Nontrivial(key)
 			r.Eval(1)
